@@ -428,11 +428,20 @@ func M_cond_Wait(c *sync.Cond) {
 	c.L.Lock()
 }
 
-// M_wait_PollUntilContextTimeout: the condition is evaluated once (polling
-// loops are bounded to a single probe; the callers ignore the outcome).
+// M_wait_PollUntilContextTimeout: the condition is probed at most twice; if it
+// is still false the poll ends the way the real one does when its time-out
+// context expires (context.DeadlineExceeded).
 func M_wait_PollUntilContextTimeout(ctx context.Context, interval, timeout time.Duration, immediate bool, condition func(context.Context) (bool, error)) error {
-	_, err := condition(ctx)
-	return err
+	for i := 0; i < 2; i++ {
+		ok, err := condition(ctx)
+		if err != nil {
+			return err
+		}
+		if ok {
+			return nil
+		}
+	}
+	return context.DeadlineExceeded
 }
 
 // the real function returns wait.ErrWaitTimeout, which wait.Interrupted recognises
